@@ -323,40 +323,53 @@ where
 {
     use num_traits::{FromPrimitive, ToPrimitive};
     let mut made = 0u64;
-    let mut see = |what: String, v: Option<A::NotNan>, lx: &mut Local| {
+    let mut see = |what: String, src_f64: Option<f64>, v: Option<A::NotNan>, lx: &mut Local| {
         if let Some(x) = v {
             made += 1;
             let back = A::nn_to_self(&x);
-            lx.check(!back.is_nan(), "C04/conversion-yields-missing", || format!("{}: {} produced a not-NaN typed value that is missing", A::NAME, what));
+            if !lx.check(!back.is_nan(), "C04/conversion-yields-missing", || format!("{}: {} produced a not-NaN typed value that is missing", A::NAME, what)) {
+                // using such a value through Deref would be undefined behaviour in the harness itself
+                return;
+            }
             // ToPrimitive on a valid value must not panic
             let r = guarded(|| (x.to_f64(), x.to_i64(), x.to_u64()));
             lx.check(r.is_ok(), "C04/conversion-panic", || format!("{}: to_f64/to_i64/to_u64 panicked on the value from {}", A::NAME, what));
+            // round trip: a value built from an (integral or, for float-like types, any finite) number reads back as that number
+            if let (Some(src), Ok((Some(y), _, _))) = (src_f64, &r) {
+                let exact = src.fract() == 0.0 && src.abs() < 9.0e15;
+                let floatlike = A::NAME.contains("N32") || A::NAME.contains("N64") || A::NAME == "f64" || A::NAME == "f32";
+                let in_range = !(A::NAME.contains("32") && floatlike) || src.abs() < 3.0e38;
+                if (exact || floatlike) && in_range {
+                    let tol = if A::NAME.contains("32") { 1e-6 * src.abs() } else { 0.0 };
+                    lx.check((y - src).abs() <= tol, "C04/conversion-round-trip", || format!("{}: {} reads back through to_f64 as {:e}", A::NAME, what, y));
+                }
+            }
         }
     };
     for &f in &[0.0f64, 1.0, -1.0, 0.5, 127.0, 128.0, 255.0, 256.0, 300.0, -129.0, 65536.0, 2147483648.0, 4294967296.0, 1e19, -1e19, 1e39, -1e39, f64::MAX, f64::INFINITY, f64::NEG_INFINITY, f64::NAN] {
         let r = guarded(|| <A::NotNan as FromPrimitive>::from_f64(f));
         match r {
-            Ok(v) => see(format!("from_f64({:e})", f), v, lx),
+            Ok(v) => see(format!("from_f64({:e})", f), if f.is_finite() { Some(f) } else { None }, v, lx),
             Err(m) => lx.fail("C04/conversion-panic", || format!("{}: from_f64({:e}) panicked: {}", A::NAME, f, m)),
         }
         let r = guarded(|| <A::NotNan as FromPrimitive>::from_f32(f as f32));
         if let Ok(v) = r {
-            see(format!("from_f32({:e})", f), v, lx);
+            see(format!("from_f32({:e})", f), if f.is_finite() && (f as f32).is_finite() { Some(f as f32 as f64) } else { None }, v, lx);
         }
     }
     for &i in &[0i64, 1, -1, 127, 128, -128, -129, 255, 256, 32767, 32768, 65535, 65536, i32::MAX as i64, i32::MAX as i64 + 1, i64::MAX, i64::MIN] {
         if let Ok(v) = guarded(|| <A::NotNan as FromPrimitive>::from_i64(i)) {
-            see(format!("from_i64({})", i), v, lx);
+            see(format!("from_i64({})", i), if i.abs() < (1i64 << 53) { Some(i as f64) } else { None }, v, lx);
         }
         if let Ok(v) = guarded(|| <A::NotNan as FromPrimitive>::from_i128(i as i128 * 4)) {
-            see(format!("from_i128({})", i as i128 * 4), v, lx);
+            see(format!("from_i128({})", i as i128 * 4), None, v, lx);
         }
         if i >= 0 {
             if let Ok(v) = guarded(|| <A::NotNan as FromPrimitive>::from_u64(i as u64 * 2 + 1)) {
-                see(format!("from_u64({})", i as u64 * 2 + 1), v, lx);
+                see(format!("from_u64({})", i as u64 * 2 + 1), None, v, lx);
             }
             if let Ok(v) = guarded(|| <A::NotNan as FromPrimitive>::from_usize(i as usize)) {
-                see(format!("from_usize({})", i), v, lx);
+                see(format!("from_usize({})", i), None, v, lx);
             }
         }
     }
